@@ -160,7 +160,8 @@ def check_source_tie(tie):
     import re as _re
     norm = lambda t: _re.sub(r"\s+", " ", t).strip()
     try:
-        hook = open(os.path.join(REPO, tie["hook_file"])).read()
+        hf = tie["hook_file"]
+        hook = open(os.path.join(VERIF, hf[len("verif:"):]) if hf.startswith("verif:") else os.path.join(REPO, hf)).read()
         prod = open(os.path.join(REPO, tie["file"])).read()
     except OSError as e:
         return "cannot read: %s" % e
